@@ -31,11 +31,11 @@ import (
 	"net/url"
 	"os"
 	"runtime/debug"
-	"syscall"
 	"sort"
 	"strings"
 	"sync"
 	"sync/atomic"
+	"syscall"
 	"time"
 
 	"github.com/golang/snappy"
@@ -298,8 +298,14 @@ func (s *sinkRec) Header(h []hpack.HeaderField, end bool, p http2.PriorityParam)
 	s.ev = append(s.ev, sinkEvent{kind: 'H', hdr: append([]hpack.HeaderField{}, h...), end: end, prio: p})
 	return nil
 }
-func (s *sinkRec) Priority(http2.PriorityParam) error { s.ev = append(s.ev, sinkEvent{kind: 'P'}); return nil }
-func (s *sinkRec) RSTStream(http2.ErrCode) error      { s.ev = append(s.ev, sinkEvent{kind: 'R'}); return nil }
+func (s *sinkRec) Priority(http2.PriorityParam) error {
+	s.ev = append(s.ev, sinkEvent{kind: 'P'})
+	return nil
+}
+func (s *sinkRec) RSTStream(http2.ErrCode) error {
+	s.ev = append(s.ev, sinkEvent{kind: 'R'})
+	return nil
+}
 func (s *sinkRec) PushPromise(uint32, []hpack.HeaderField) error {
 	s.ev = append(s.ev, sinkEvent{kind: 'U'})
 	return nil
@@ -365,7 +371,7 @@ type item struct {
 	verdicts []*sinkVerdict
 
 	evals, calls, nontrivial, prefixSplit, payloadSplit, multiMsgFrame, violating int64
-	viol                                                                       map[string]*vbest
+	viol                                                                          map[string]*vbest
 }
 
 var prio = http2.PriorityParam{StreamDep: 3, Weight: 7}
